@@ -334,8 +334,16 @@ class Peer:
             self.neighbor.rib.outgoing.resend(enhanced, family)
         self._delay.reset()
 
+    def _carry_previous(self, restart_neighbor: 'Neighbor' | None) -> None:
+        # an earlier reload the main loop has not looked at yet: the difference to send still starts
+        # from the routes of the configuration before it, not from the one which was never applied
+        waiting = self._neighbor
+        if restart_neighbor and waiting is not None and waiting is not restart_neighbor and waiting.previous:
+            restart_neighbor.previous = waiting.previous
+
     def reestablish(self, restart_neighbor: 'Neighbor' | None = None) -> None:
         # we want to tear down the session and re-establish it
+        self._carry_previous(restart_neighbor)
         self._teardown = 3
         self._restart = True
         self._restarted = True
@@ -344,6 +352,7 @@ class Peer:
 
     def reconfigure(self, restart_neighbor: 'Neighbor' | None = None) -> None:
         # we want to update the route which were in the configuration file
+        self._carry_previous(restart_neighbor)
         self._neighbor = restart_neighbor
         # Update self.neighbor immediately so API processes see the new configuration
         # during RELOAD (SIGUSR1), not just during connection reset
